@@ -71,6 +71,10 @@ pub trait ArchX: Archetype + Sized + 'static {
     fn rows_iter(a: &mut Self) -> Vec<(EntityAny, Row)>;
     fn rows_iter_mut(a: &mut Self, set: Option<(usize, usize, u64)>) -> Vec<(EntityAny, Row)>;
     fn rows_all_slices(a: &mut Self, set: Option<(usize, usize, u64)>) -> Vec<(EntityAny, Row)>;
+    /// run `f` while holding `borrow_slice::<C>()` / `borrow_slice_mut::<C>()` of column `col`
+    fn with_borrow_slice(a: &Self, col: usize, m: bool, f: &mut dyn FnMut());
+    /// run `f` while holding `component::<C>()` / `component_mut::<C>()` of column `col`
+    fn with_borrow_comp(b: &Self::Borrow<'_>, col: usize, m: bool, f: &mut dyn FnMut());
     fn dump(a: &Self) -> VerifDump;
     fn preset(a: &mut Self, sv: u32, av: u32);
     #[cfg(feature = "events")]
@@ -181,6 +185,24 @@ macro_rules! impl_archx {
                     out.push((s.entity[n].into_any(), vec![$(tv(&s.$v[n])),*]));
                 }
                 out
+            }
+            fn with_borrow_slice(a: &Self, col: usize, m: bool, f: &mut dyn FnMut()) {
+                let mut i = 0usize;
+                $( if i == col {
+                    if m { let _g = a.borrow_slice_mut::<$C>(); f(); } else { let _g = a.borrow_slice::<$C>(); f(); }
+                    return;
+                } i += 1; )*
+                let _ = i;
+                panic!("harness: bad column")
+            }
+            fn with_borrow_comp(b: &Self::Borrow<'_>, col: usize, m: bool, f: &mut dyn FnMut()) {
+                let mut i = 0usize;
+                $( if i == col {
+                    if m { let _g = b.component_mut::<$C>(); f(); } else { let _g = b.component::<$C>(); f(); }
+                    return;
+                } i += 1; )*
+                let _ = i;
+                panic!("harness: bad column")
             }
             fn dump(a: &Self) -> VerifDump { a.data.verif_dump() }
             fn preset(a: &mut Self, sv: u32, av: u32) { a.data.verif_preset_versions(sv, av) }
